@@ -166,6 +166,7 @@ def oracle(H):
 
 
 def run(v):
+    import numpy as np
     import xgi
     proof = base.proof_stage(v, PROP)
     n = 1500 if C.tier() == "thorough" else 160
@@ -190,7 +191,7 @@ def run(v):
                 warnings.simplefilter("ignore")
                 for _ in range(6):
                     o = rng.choice([None, None, 0, 1, 2, 3]); sp = rng.random() < 0.5
-                    k = rng.choice(["inc", "adj", "adj", "deg", "int", "cm", "lap"])
+                    k = rng.choice(["inc", "adj", "adj", "deg", "int", "cm", "lap", "ten"])
                     if k == "inc":
                         qs.append(G.gpair(f"(MIncidence {gon(o)})", gmat(xgi.incidence_matrix(H, order=o, sparse=sp))))
                     elif k == "adj":
@@ -200,6 +201,16 @@ def run(v):
                         qs.append(G.gpair(f"(MDegree {gon(o)})", gmat(xgi.degree_matrix(H, order=o))))
                     elif k == "int":
                         qs.append(G.gpair(f"(MIntersection {gon(o)})", gmat(xgi.intersection_profile(H, order=o, sparse=sp))))
+                    elif k == "ten":
+                        dd = rng.choice([1, 1, 2])
+                        if H.num_nodes ** (dd + 1) <= 800:
+                            B = np.asarray(xgi.adjacency_tensor(H, dd, normalized=False))
+                            Bn = np.asarray(xgi.adjacency_tensor(H, dd))        # default: divided by order!
+                            if Bn.shape != B.shape or not np.allclose(Bn * math.factorial(dd), B):
+                                failures.append((f"{PROP}:adjacency_tensor:normalized", {"what": f"adjacency_tensor(H, {dd}) is not adjacency_tensor(H, {dd}, normalized=False) / {dd}!", "history": HC.jsonable(r["ops"])}))
+                            if B.shape != (H.num_nodes,) * (dd + 1):
+                                failures.append((f"{PROP}:adjacency_tensor:shape", {"what": f"adjacency_tensor(H, {dd}) has shape {B.shape} for {H.num_nodes} nodes", "history": HC.jsonable(r["ops"])}))
+                            qs.append(G.gpair(f"(MTensor {G.gnat(dd)})", gmat(B.reshape(1, -1) if B.size else np.zeros((1, 0)))))
                     elif k == "cm":
                         qs.append(G.gpair("MCliqueMotif", gmat(xgi.clique_motif_matrix(H, sparse=sp))))
                     else:
